@@ -1,7 +1,7 @@
 (* C05, double array: keys() / keys_with_prefix() (collect_keys_double_array_recursive) enumerate exactly
    the members, each once; impl Clone. *)
 From ZV.Common Require Import Base Run.
-From ZV.C05 Require Import Model ModelFsa ModelDa Spec ProofsBase ProofsInsert ProofsRemove ProofsRefine ProofsKeys ProofsFsa
+From ZV.C05 Require Import Model ModelFsa ModelDa Spec SpecNoRemove ProofsBase ProofsInsert ProofsRemove ProofsRefine ProofsKeys ProofsFsa
   ProofsClone ProofsDaArr ProofsDaInv ProofsDaReloc ProofsDaReloc2 ProofsDaInsert.
 Open Scope N_scope.
 
@@ -167,3 +167,22 @@ Proof. intros ops H Hn. apply (d_run_refines_c ops d_empty [] H drel_empty Hn). 
 Example da_clone_hyp_example :
   d_noerr_c d_empty [(0, [1; 0; 1; 255]); (0, [1; 1; 0; 255; 255]); (8, []); (0, [97]); (8, []); (3, [])] = true.
 Proof. vm_compute. reflexivity. Qed.
+
+(* ---------------------------------------------------------------- histories with remove calls, as the code treats them *)
+Lemma d_run_refines_nr : forall ops st S, Forall op_ok ops -> DRel st S -> d_noerr_c st ops = true ->
+  d_run st ops = s_run_nr S ops.
+Proof.
+  induction ops as [|op t IH]; intros st S Hok R Hne; cbn [d_run s_run_nr]; [reflexivity|].
+  inversion Hok as [|? ? Hop Ht]; subst. cbn [d_noerr_c] in Hne. apply andb_true_iff in Hne as [Hn1 Hn2].
+  unfold s_step_nr. destruct (N.eqb_spec (fst op) 1) as [E|E].
+  - destruct op as [code k]. cbn [fst] in E. subst code. cbn [d_step]. cbn [d_step fst] in Hn2.
+    f_equal. apply IH; assumption.
+  - assert (Hins : fst op = 0 -> snd (d_insert st (snd op)) = true) by (intro E0; rewrite E0 in Hn1; exact Hn1).
+    assert (Hcl : fst op = 8 -> d_clone_ok st = true) by (intro E8; rewrite E8 in Hn1; exact Hn1).
+    destruct (d_step_refines_c st S op (conj Hop E) R Hins Hcl) as [Ho R'].
+    destruct (d_step st op) as [st' o] eqn:E1. destruct (s_step S op) as [S' o'] eqn:E2.
+    cbn [fst snd] in *. subst o'. f_equal. apply IH; assumption.
+Qed.
+Lemma da_refines_set_noop_remove_proof : forall ops, Forall op_ok ops -> d_noerr_c d_empty ops = true ->
+  d_run d_empty ops = s_run_nr [] ops.
+Proof. intros ops H Hn. apply (d_run_refines_nr ops d_empty [] H drel_empty Hn). Qed.
